@@ -419,6 +419,9 @@ def nofield_main(S, env):
 
 
 # ------------------------------------------------------------------ nested discriminated roots
+NONMAP = [5, None, "abc", [1], 1.5]
+
+
 class NestedInput(symval.Node):
     """outer tag in {poly, a, zz, absent}, inner tag in {tri, zz, absent}; whether Tri exists before the first call"""
 
@@ -427,9 +430,10 @@ class NestedInput(symval.Node):
         self.inner = ctx.sel(3)
         self.late = ctx.new("b", "bool")
         self.x = ctx.new("i", "int")
+        self.root = ctx.sel(len(NONMAP) + 1)  # 0: a dict as described above; k > 0: the non-mapping root NONMAP[k - 1]
 
     def make(self, env):
-        return pick(env[self.outer], 4), pick(env[self.inner], 3), bool(env[self.late])
+        return pick(env[self.outer], 4), pick(env[self.inner], 3), bool(env[self.late]), pick(env[self.root], len(NONMAP) + 1)
 
 
 def build_nested(style, late):
@@ -466,7 +470,7 @@ def build_nested(style, late):
 
 
 def nested_main(S, env):
-    outer, inner, late = S.node.make(env)
+    outer, inner, late, root = S.node.make(env)
     with notrace():
         classes, dec = build_nested(S.fam_args["style"], late)
         d = {"x": 5}
@@ -482,9 +486,17 @@ def nested_main(S, env):
             want = classes["A"]
         else:
             want = (classes["Tri"], "notfound", "missing")[inner]
+        if root:
+            d = NONMAP[root - 1]
+            want = "nonmapping"
         st, r = call(dec, d)
         if st == "exc" and isinstance(r, InvalidFieldValue) and S.fam_args["style"] == "annotated":
             r = r.__context__ or r.__cause__ or r
+        if want == "nonmapping":
+            # a non-mapping argument is a ValueError, as for any other dataclass (wrapped by the holder in annotated style)
+            if st == "ok" or type(r) is not ValueError:
+                return fail("C12/non-mapping-argument:%s" % (type(r).__name__ if st == "exc" else "accepted"), input=d, got=r)
+            return True
         if isinstance(want, type):
             if st != "ok" or type(r) is not want:
                 return fail("C12/nested-root:wrong-result", input=d, got=r, want=want.__name__, late=late)
@@ -505,8 +517,8 @@ def main(S, env):
 
 def twin(S, env):
     if S.variant == "nested":
-        outer, inner, late = S.node.make(env)
-        if not (outer == 0 and inner == 0 and late):
+        outer, inner, late, root = S.node.make(env)
+        if not (outer == 0 and inner == 0 and late and root == 0):
             return True
         return not main(S, env)
     if S.variant == "nofield":
